@@ -105,7 +105,14 @@ func c09RequestHead(agree bool) {
 // consume more than the stream holds.
 func vhC08SmallBuffers() {
 	b := c05Sym("buf", vParam("bufLen", 3))
-	switch vChoose("parser", 10) {
+	switch vChoose("parser", 11) {
+	case 10:
+		// a bracketed host: arbitrary bytes in front of a dotted quad
+		var u URI
+		host := append([]byte("["), b...)
+		host = append(host, "1.2.3.4]"...)
+		err := u.Parse(host, []byte("/"))
+		vAssert("bracketed-host-returned", err != nil || len(u.Host()) > 0)
 	case 8:
 		// the multipart boundary parameter of an arbitrary Content-Type tail
 		var h RequestHeader
